@@ -50,6 +50,30 @@ fn transcript_l<L: Language + 'static>(c: &Mixed, dump: bool) -> String {
             }
         }
     }
+    // matches of multi-patterns obtained by flattening inserted terms (shared variables, identified variables / slots)
+    {
+        let nm = &c.naming;
+        let n = st.terms.len();
+        for k in 0..3usize.min(n) {
+            let window: Vec<crate::tm::Tm> = st.terms[k..(k + 2).min(n)].iter().filter(|t| t.size() <= 12).cloned().collect();
+            if window.is_empty() {
+                continue;
+            }
+            let choices: Vec<u16> = (0..16).map(|i| ((k as u32 * 7919 + i * 104729 + n as u32 * 31) % 65536) as u16).collect();
+            let eqs = crate::props::c05::multi_from_term(&window, &mut crate::tm::Src::new(if k == 0 { &[] } else { &choices }));
+            if eqs.is_empty() {
+                continue;
+            }
+            let txt = eqs.iter().map(|(v, t)| format!("?{} == {}", v, crate::pat::render_pat(t, nm))).collect::<Vec<_>>().join(", ");
+            let Ok(mp) = MultiPattern::<L>::parse(&txt) else { continue };
+            let ms = multi_ematch(&mp, &eg);
+            out.push_str(&format!("multi_ematch {} -> {} matches\n", txt, ms.len()));
+            for m in ms.iter().take(40) {
+                let items: Vec<String> = m.iter().map(|(k, v)| format!("{}={:?}", k, v)).collect();
+                out.push_str(&format!("   {}\n", items.join(" ")));
+            }
+        }
+    }
     // class contents
     for i in eg.ids() {
         let ns: Vec<String> = eg.enodes(i).iter().map(|n| format!("{:?}", n)).collect();
@@ -123,6 +147,19 @@ fn interfere(stop: Arc<AtomicBool>, k: usize) {
         let b = eg.add_expr(RecExpr::parse(&format!("(add (mul {} (var $q{})) {})", i % 7, i % 5, sym)).unwrap());
         eg.union(&a, &b);
         let _ = ast_size_extract(&a, &eg);
+        // now and then a much bigger e-graph with a long rebuild worklist is built and dropped (whatever a dropped e-graph
+        // leaves behind in the process must not show in the replays)
+        if k == 0 && i % 24 == 1 {
+            let mut big: EGraph<Arith> = EGraph::default();
+            let x = big.add_expr(RecExpr::parse("(var $q0)").unwrap());
+            let y = big.add_expr(RecExpr::parse("(mul 1 (var $q0))").unwrap());
+            for j in 0..150 {
+                big.add_expr(RecExpr::parse(&format!("(add (var $q0) (mul {} (var $q1)))", j)).unwrap());
+                big.add_expr(RecExpr::parse(&format!("(add (mul 1 (var $q0)) (mul {} (var $q1)))", j)).unwrap());
+            }
+            big.union(&x, &y);
+            drop(big);
+        }
     }
 }
 
@@ -287,7 +324,7 @@ pub fn property(tier: Tier) -> Property {
             run: run_threads,
             panic_is_violation: false,
             render: |c: &Mixed| c.render(),
-            rule: "a mixed history (insertions, unions, rewrite iterations, then ematch_all, class listing and extraction; explanations rendered under that feature) replayed in 3 fresh threads one after another and in 3 fresh threads concurrently with 4 threads that build other e-graphs, mint fresh slots and intern other symbols; transcripts must be byte-identical; non-trivial = the transcript contains a fresh slot name, at least 2 matches and an extraction; distinct by rendered history",
+            rule: "a mixed history (insertions, unions, rewrite iterations, then ematch_all, multi_ematch of multi-patterns flattened from the inserted terms, class listing and extraction; explanations rendered under that feature) replayed in 3 fresh threads one after another and in 3 fresh threads concurrently with 4 threads that build (and drop) other e-graphs, small ones and ones with hundreds of e-nodes and a long rebuild worklist, mint fresh slots and intern other symbols; transcripts must be byte-identical; non-trivial = the transcript contains a fresh slot name, at least 2 matches and an extraction; distinct by rendered history",
             case_timeout_s: tier.pick(30, 120),
             exhaustive: false,
         }));
